@@ -49,6 +49,9 @@ def run(repo: Repo, rep, tier: str):
     c02.chnm_below_chnk(repo, rep, "C03", "R5")
     from . import c16
     c16.record_sizes(repo, rep, "C03", "R6", tables)
+    c02.synth_header_context(repo, rep, "C03", "R7")     # .sunsynth files carry no in-project-only chunks
+    from . import c11
+    c11.pack_unpack(repo, rep, "C03", "R8")               # options record holds exactly the current option values
 
 
 # ------------------------------------------------------------------------------- R1
